@@ -275,7 +275,8 @@ def State.serializeLongTurtle (s : State) (nsOf : Nat → Option Nat) (canon : B
     (canonf : List Triple → List Triple) : State × Out :=
   -- `to_canonical_graph(self.store)` ITERATES the graph handed to the serializer: a `Dataset` yields quads, the
   -- colouring's `for s, p, o in self.graph` raises — in `reset()`, before any pass has run: nothing is bound
-  if canon && s.isDataset then (s, .err) else
+  -- (an EMPTY Dataset yields nothing, so nothing is unpacked and the serialisation goes through)
+  if canon && s.isDataset && !s.quads.isEmpty then (s, .err) else
   let content := if canon then unionInto [] (canonf s.visible) else s.visible
   (preprocessTriples nsOf (preprocessTriples nsOf s content) content, .triples content)
 
